@@ -453,6 +453,12 @@ func check(t interface {
 		if b := wire.BlockedMatching("handleInputStream"); len(b) > 0 {
 			fail("%s; the serve loop is parked inside the library:\n%s", what, strings.Join(b, "\n\n"))
 		}
+		if wire.ServeIdle() && sv.Conn.PendingInput() == 0 {
+			// not a matter of timing: the library has read everything the peer
+			// sent and is waiting for more, so whatever was fed and has reached
+			// neither a caller nor the handler was swallowed
+			fail("%s; the serve loop has consumed all the input and is waiting for more: stanzas that were fed reached neither a caller nor the handler", what)
+		}
 		ev.Class("inconclusive-timeout")
 	}
 	cleanup := func() {
